@@ -1519,7 +1519,7 @@ def concrete_only_part(out, prop, tier):
 
 
 def kani_part(out, prop, tier, seed):
-    if prop in ('C01', 'C07', 'C03'):
+    if prop in ('C01', 'C02', 'C07', 'C03'):
         try:
             concrete_only_part(out, prop, tier)
         except Undecided as e:
